@@ -860,6 +860,7 @@ class RTCPeerConnection(AsyncIOEventEmitter):
 
         # gather candidates
         await self.__gather()
+        self.__assertNotClosed()
         for i, media in enumerate(description.media):
             if media.kind in ["audio", "video"]:
                 transceiver = self.__getTransceiverByMLineIndex(i)
@@ -886,6 +887,9 @@ class RTCPeerConnection(AsyncIOEventEmitter):
         :param sessionDescription: An :class:`RTCSessionDescription` created from
                                     information received over the signaling channel.
         """
+        # check state is valid
+        self.__assertNotClosed()
+
         self.__log_debug(
             "setRemoteDescription(%s)\n%s",
             sessionDescription.type,
@@ -1060,6 +1064,7 @@ class RTCPeerConnection(AsyncIOEventEmitter):
             for iceTransport, media in iceCandidates.items()
         ]
         await asyncio.gather(*coros)
+        self.__assertNotClosed()
 
         # FIXME: in aiortc 2.0.0 emit RTCTrackEvent directly
         for event in trackEvents:
